@@ -1,1 +1,2 @@
 import Dalek.Props.C01
+import Dalek.Props.C11
